@@ -83,7 +83,7 @@ def action (rest : List String) : Option (M String) :=
       let w ← get
       let x ← proc p.toNat!
       if acceptsEvents w i.toNat! && (getInfo x.infos i.toNat!).isSome then
-        setProc p.toNat! { x with infos := x.infos.del i.toNat! }
+        setProc p.toNat! (match Supv.Proc.removeIdentifier x i.toNat! with | .ok y => y | .err _ => { x with infos := x.infos.del i.toNat! })
       return "")
   | ["disable", i, p, dis] => some (do
       disableProcess i.toNat! p.toNat! (s2b dis)
